@@ -11,6 +11,7 @@ import (
 	"os"
 	"runtime/debug"
 	"sort"
+	"strconv"
 	"strings"
 	"sync"
 	"testing"
@@ -310,8 +311,17 @@ func Run[C any](t *testing.T, o Options, gen func(*rapid.T) C, run func(C, *Trac
 		if err := json.Unmarshal(ff.Case, &c); err != nil {
 			t.Fatalf("VERIF-INFRA bad replay case: %v", err)
 		}
-		v, tr := exec(c)
-		rec.Record(c, tr)
+		// the code under test iterates Go maps: a failing history may need several attempts to reproduce
+		tries := 1
+		if n, err := strconv.Atoi(os.Getenv("VERIF_REPLAY_TRIES")); err == nil && n > 0 {
+			tries = n
+		}
+		var v *Violation
+		var tr *Trace
+		for i := 0; i < tries && v == nil; i++ {
+			v, tr = exec(c)
+			rec.Record(c, tr)
+		}
 		if v != nil {
 			if id := KnownID(o.Property, v); id != "" {
 				fmt.Fprintf(os.Stderr, "VERIF-KNOWN %s %s\n", id, v.Kind)
@@ -370,3 +380,55 @@ func RunFixed[C any](t *testing.T, o Options, cases []C, run func(C, *Trace) *Vi
 
 // U64 is a helper for binary hashing of enumerated cases.
 func U64(v uint64) []byte { var b [8]byte; binary.LittleEndian.PutUint64(b[:], v); return b[:] }
+
+// RunWitnesses re-executes the committed witness cases of known findings
+// ($VERIF_WITNESS_DIR/*.json whose "test" field equals forTest). A witness that
+// still violates with its listed signature is reported through VERIF-KNOWN
+// (the driver prints the KNOWN-FINDING line); any other violation fails.
+func RunWitnesses[C any](t *testing.T, o Options, forTest string, run func(C, *Trace) *Violation) {
+	rec := NewRecorder(t, o)
+	defer rec.Flush()
+	dir := os.Getenv("VERIF_WITNESS_DIR")
+	ents, _ := os.ReadDir(dir)
+	for _, e := range ents {
+		if !strings.HasSuffix(e.Name(), ".json") {
+			continue
+		}
+		b, err := os.ReadFile(dir + "/" + e.Name())
+		if err != nil {
+			continue
+		}
+		var ff failFile
+		if json.Unmarshal(b, &ff) != nil || ff.Test != forTest || ff.Property != o.Property {
+			continue
+		}
+		var c C
+		if err := json.Unmarshal(ff.Case, &c); err != nil {
+			t.Fatalf("VERIF-INFRA bad witness %s: %v", e.Name(), err)
+		}
+		for i := 0; i < 50; i++ {
+			tr := &Trace{}
+			v := Safe(func() *Violation { return run(c, tr) })
+			rec.Record(c, tr)
+			hit := false
+			for _, id := range tr.known {
+				fmt.Fprintf(os.Stderr, "VERIF-KNOWN %s (witness %s)\n", id, e.Name())
+				hit = true
+			}
+			if v != nil {
+				if id := KnownID(o.Property, v); id != "" {
+					rec.Known(id)
+					fmt.Fprintf(os.Stderr, "VERIF-KNOWN %s (witness %s)\n", id, e.Name())
+					hit = true
+				} else {
+					writeFail(o, forTest, c, v)
+					fmt.Fprintf(os.Stderr, "VERIF-VIOLATION kind=%s\n%s\n", v.Kind, v.Detail)
+					t.Fatalf("violation: %s", v.Kind)
+				}
+			}
+			if hit {
+				break
+			}
+		}
+	}
+}
